@@ -194,3 +194,44 @@ Example pg_example :
   calc_min_resources sp xs = mkR 4 (2 * 250 + 2 * 100) (2 * 64) /\
   law_pg sp xs 2 true (pg_create sp xs 2) = true.
 Proof. cbn. split; [repeat constructor; cbn; intuition congruence|split; vm_compute; reflexivity]. Qed.
+
+(* ---------- syncJob on the world: the API server's pods after an admitted sync ---------- *)
+From V Require Import C06.SyncLemmas.
+
+Lemma sync_job_pods : forall w u F w' e wr,
+  sync_job w u F = (w', e, wr) -> pg_admitted (v_pg w) = true -> st_phase (v_st w) <> PhNone ->
+  w_pods w' = a_pods (sync_pods (v_spec w) (v_pods w) (w_pods w) F) /\
+  (F = [] -> e = a_err (sync_pods (v_spec w) (v_pods w) (w_pods w) [])).
+Proof.
+  intros w u F w' e wr H Hpg Hph. unfold sync_job in H.
+  destruct (phase_beq (st_phase (v_st w)) PhNone) eqn:Ei.
+  { apply phase_beq_true in Ei. contradiction. }
+  cbn [andb] in H. rewrite pj7, Hpg in H. cbn [negb] in H. rewrite pj6, pj5 in H.
+  set (a := sync_pods (v_spec w) (v_pods w) (w_pods w) F) in *.
+  destruct (a_err a) eqn:Ea.
+  - inversion H; subst. fin. split; auto. intros ->. subst a. symmetry; exact Ea.
+  - match type of H with context [status_eq_dec ?x ?y] => destruct (status_eq_dec x y) end.
+    + inversion H; subst. fin. split; auto. intros ->. subst a. symmetry; exact Ea.
+    + destruct (fails_status F 0) eqn:Ef.
+      * inversion H; subst. fin. split; auto. intros ->. discriminate.
+      * inversion H; subst. fin. split; auto. intros ->. subst a. symmetry; exact Ea.
+Qed.
+
+(* exact pod set, on the world: PodGroup admitted, fresh pod view, every API call succeeds *)
+Theorem sync_job_exact_pods : forall w u w' e wr,
+  sync_job w u [] = (w', e, wr) -> pg_admitted (v_pg w) = true -> st_phase (v_st w) <> PhNone ->
+  v_pods w = w_pods w -> NoDup (pod_ids (w_pods w)) ->
+  e = false /\
+  forall t i,
+    find_pod t i (w_pods w') =
+    match find_pod t i (w_pods w) with
+    | Some q => Some (if doomed (v_spec w) q then mark q else q)
+    | None => if wanted (v_spec w) (w_pods w) t i then Some (newpod t i) else None
+    end.
+Proof.
+  intros w u w' e wr H Hpg Hph Hfresh Hnd.
+  destruct (sync_job_pods _ _ _ _ _ _ H Hpg Hph) as [Hp He]. rewrite Hfresh in Hp, He.
+  destruct (sync_exact_pods true (v_spec w) (w_pods w) Hnd) as [Herr Hfind].
+  split; [rewrite (He eq_refl); exact Herr|].
+  intros t i. rewrite Hp. apply Hfind.
+Qed.
